@@ -7,7 +7,8 @@ set -u
 BOX=/tmp/seedbox-$1; shift
 mkdir -p $BOX/repo $BOX/verif
 rsync -a --delete --exclude target /repo/ $BOX/repo/
-rsync -a --delete --exclude seeded --exclude .git --exclude replays /verif/ $BOX/verif/
+# files other sessions may be writing right now (not part of the committed machinery) are left out: ${NS_EXCLUDES}
+rsync -a --delete --exclude seeded --exclude .git --exclude replays ${NS_EXCLUDES:-} /verif/ $BOX/verif/
 mkdir -p $BOX/verif/seeded $BOX/verif/replays
 ARGS="$*"
 unshare -m bash -c "mount --bind /verif/seeded $BOX/verif/seeded && mount --rbind $BOX/repo /repo && mount --rbind $BOX/verif /verif && cd /verif && FEATURES=${FEATURES:-oracle,serde} tools/seed_eval.sh $ARGS"
